@@ -86,6 +86,9 @@ type Fake struct {
 	Next       map[string]Outcome
 	SnapFail   bool
 	RevFail    bool  // next SetRevisionCounter fails
+	// CloneScript: clone statuses reported by successive polls (the last one stays)
+	CloneScript []string
+	ClonePolls  int
 	// FailNextMgmt: the next management call whose name starts with this string fails (admission steps of an add)
 	FailNextMgmt string
 	GetDelayMs int32 // REST GET answered this late (atomic)
@@ -384,7 +387,17 @@ func (c *Conn) GetCloneStatus() (string, error) {
 	if err := c.mgmt("GetCloneStatus"); err != nil {
 		return "", err
 	}
-	return c.F.CloneStatus, nil
+	f := c.F
+	f.mu.Lock()
+	defer f.mu.Unlock()
+	if len(f.CloneScript) > 0 {
+		// a clone in progress: the status the replica reports changes from poll to poll
+		f.CloneStatus = f.CloneScript[0]
+		f.CloneScript = f.CloneScript[1:]
+		f.ClonePolls++
+		f.SetCalls = append(f.SetCalls, "clonestatus="+f.CloneStatus)
+	}
+	return f.CloneStatus, nil
 }
 func (c *Conn) GetVolUsage() (types.VolUsage, error) {
 	return types.VolUsage{RevisionCounter: c.F.Rev, SectorSize: 4096}, c.mgmt("GetVolUsage")
